@@ -472,3 +472,42 @@ func freshPointers(fd *ast.FuncDecl, info *types.Info) map[*types.Var]bool {
 	}
 	return out
 }
+
+// normExpr prints e with every local variable (parameter, receiver, result, local) replaced by `$k:T`, k the order of
+// first occurrence inside e and T its type: keys built from it do not change when a developer renames a local.
+func normExpr(info *types.Info, e ast.Expr) string {
+	if info == nil {
+		return types.ExprString(e)
+	}
+	idx := map[types.Object]int{}
+	var ids []*ast.Ident
+	var old []string
+	ast.Inspect(e, func(n ast.Node) bool {
+		id, ok := n.(*ast.Ident)
+		if !ok {
+			return true
+		}
+		obj := info.Uses[id]
+		if obj == nil {
+			obj = info.Defs[id]
+		}
+		v, ok := obj.(*types.Var)
+		if !ok || v.IsField() || v.Pkg() == nil || v.Parent() == nil || v.Parent() == v.Pkg().Scope() || v.Parent() == types.Universe {
+			return true
+		}
+		k, seen := idx[obj]
+		if !seen {
+			k = len(idx)
+			idx[obj] = k
+		}
+		ids = append(ids, id)
+		old = append(old, id.Name)
+		id.Name = fmt.Sprintf("$%d:%s", k, types.TypeString(v.Type(), func(q *types.Package) string { return q.Name() }))
+		return true
+	})
+	s := types.ExprString(e)
+	for i, id := range ids {
+		id.Name = old[i]
+	}
+	return s
+}
